@@ -146,3 +146,82 @@ Print Assumptions C01_compile_correct_exec_partial.
 
 (* non-vacuity: Proofs/CompileProofs.v cc_demo, cc_demo2, cc_demo3 (vm_compute) *)
 Example C01_compile_witness := cc_demo2.
+
+(* ===================== ... with balancing captures (every constructor of Tree.node) ===================== *)
+From Verif Require Import Proofs.CompileBalDen Proofs.CompileBalBase Proofs.CompileBalDefs Proofs.CompileBal.
+
+(* The constructor set CompileBalDefs.supported2 = supported without "u = -1" on captures: (?<g-u>...) and
+   (?<-u>...) are covered.  The interpreter's capture arrays then contain balanceMatch's marker pairs; the
+   relation [caps_rel2] says each array DENOTES the reference capture stack (Proofs/CompileBalDen.v: isMatched,
+   matchIndex, matchLength read exactly the newest live capture).  New side condition (groups_ok2): the popped
+   group u is a slot, the pushed group g is a slot or -1.  The uncapture/crawl discipline is part of the
+   invariant leadsg2, not a hypothesis. *)
+Theorem C01_compile_correct2_partial :
+  forall (e : env) (p : program), 0 <= trackcount p -> tlen e <= INF ->
+  forall fuel t s res,
+    Z.of_nat fuel <= INF ->
+    sem e fuel t s = Ok res -> supported2 t = true -> st_ok e s -> groups_ok2 (capsize p) t ->
+    forall a tbl T S C M,
+      has_code p a (fst (emit cfg0 t a tbl)) -> (exists w, code_at p (a + csize cfg0 t) = Some w) ->
+      track_ok p T -> caps_rel2 p (caps s) M -> tbl_ok p (snd (emit cfg0 t a tbl)) ->
+      leadsg2 e p (a + csize cfg0 t) T S S C M (mkr a 0 (pos s) T S C M) res.
+Proof. exact compile_correct2_partial. Qed.
+Print Assumptions C01_compile_correct2_partial.
+
+Theorem C01_compile_correct2_top_partial :
+  forall (e : env) (p : program), 0 <= trackcount p -> tlen e <= INF ->
+  forall fuel o body t0 r,
+  let root := NCapture o 0 (-1) body in
+  let M0 := repeat [] (Z.to_nat (capsize p)) in
+  let stop := 2 + csize cfg0 root in
+  codes p = fst (compile cfg0 root) -> strings p = snd (compile cfg0 root) ->
+  supported2 root = true -> groups_ok2 (capsize p) root -> 0 <= t0 <= tlen e ->
+  Z.of_nat fuel <= INF ->
+  attempt e fuel root t0 = Ok r ->
+  code_at p stop = Some Stop /\
+  exists t T S C M,
+    usteps e p (mk 0 0 t0 [] [] [] M0) (mk stop 0 t T S C M) /\
+    ustep e p (mk stop 0 t T S C M) = Ok (Done (mk stop 0 t T S C M)) /\
+    match r with
+    | Some q => t = pos q /\ caps_rel2 p (caps q) M /\ matched0 (mk stop 0 t T S C M) = true
+    | None => M = M0 /\ T = [] /\ S = [] /\ C = [] /\ matched0 (mk stop 0 t T S C M) = false
+    end.
+Proof. exact compile_correct2_top_partial. Qed.
+Print Assumptions C01_compile_correct2_top_partial.
+
+Theorem C01_compile_correct2_exec_partial :
+  forall (e : env) (p : program), 0 <= trackcount p -> tlen e <= INF ->
+  forall L fuel vfuel o body t0 r s',
+  let root := NCapture o 0 (-1) body in
+  let M0 := repeat [] (Z.to_nat (capsize p)) in
+  let stop := 2 + csize cfg0 root in
+  codes p = fst (compile cfg0 root) -> strings p = snd (compile cfg0 root) ->
+  supported2 root = true -> groups_ok2 (capsize p) root -> 0 <= t0 <= tlen e ->
+  Z.of_nat fuel <= INF ->
+  attempt e fuel root t0 = Ok r ->
+  exec_at e p L vfuel t0 = Ok s' ->
+  pc s' = stop /\ mode s' = 0 /\
+  match r with
+  | Some q => tp s' = pos q /\ caps_rel2 p (caps q) (mcaps s') /\ matched0 s' = true
+  | None => mcaps s' = M0 /\ matched0 s' = false
+  end.
+Proof. exact compile_correct2_exec_partial. Qed.
+Print Assumptions C01_compile_correct2_exec_partial.
+
+(* what caps_rel2 means: per slot an array of pairs that denotes the reference stack, and the
+   interpreter's three readers answer from that stack; without markers it is caps_rel *)
+Theorem C01_caps_rel2_reads :
+  forall (e : env) (p : program) c M g, caps_rel2 p c M -> 0 <= g < capsize p -> sb_caps_ok e c ->
+  vm_is_matched g M = Some (is_matched g c) /\
+  forall i len rest, cap_get g c = (i, len) :: rest ->
+    vm_match_index g M = Some i /\ vm_match_length g M = Some len.
+Proof. exact bd_caps_rel_reads. Qed.
+Print Assumptions C01_caps_rel2_reads.
+
+Theorem C01_caps_rel2_of_plain :
+  forall (e : env) (p : program) c M, sb_caps_ok e c -> caps_rel p c M -> caps_rel2 p c M.
+Proof. exact bd_caps_rel_of_plain. Qed.
+Print Assumptions C01_caps_rel2_of_plain.
+
+(* non-vacuity: a^n b^n with (?<2-1>b) and (?<-2>), Proofs/CompileBal.v *)
+Example C01_compile2_witness := c2_demo.
